@@ -208,6 +208,11 @@ def main():
                 dist(sname + ":truth-unavailable")
                 continue
             scale = 1.0 + float(onp.max(onp.abs(Hv_true)))
+            try:
+                make_jvp(s_ag)(z0)(v)
+                fwd1_ok = True
+            except Exception:
+                fwd1_ok = False
             seqs = {
                 "rev-over-rev": lambda: grad(lambda z: anp.sum(grad(s_ag)(z) * v))(z0),
                 "fwd-over-rev": lambda: make_jvp(grad(s_ag))(z0)(v)[1],
@@ -218,8 +223,17 @@ def main():
                 try:
                     got[qn] = onp.asarray(th(), float)
                     dist("%s:%s:computed" % (sname, qn))
-                except LOUD:
+                except LOUD as ex:
                     dist("%s:%s:raises" % (sname, qn))
+                    # differentiation is closed under itself: where the first derivative exists in the modes involved,
+                    # the second one does too (a forward rule may be missing altogether: then forward mode raises at
+                    # first order already, which is the supported way of saying so)
+                    # (NotImplementedError is how a missing rule of some primitive the first derivative is built from -
+                    #  e.g. the JVP of svd - announces itself: allowed)
+                    if (qn == "rev-over-rev" or fwd1_ok) and not isinstance(ex, NotImplementedError):
+                        out["bad"].append({"primitive": c.prim, "configuration": c.tag, "scalarisation": sname, "sequence": qn,
+                                           "what": "first-order differentiation works in the modes involved, but %s raises %s: %s" % (qn, type(ex).__name__, str(ex)[:100]),
+                                           "z0": z0.tolist(), "site": {"primitive": c.prim, "kind": "second-order", "configuration": c.tag}})
                 except Exception as ex:
                     dist("%s:%s:raises-other" % (sname, qn))
                     out["bad"].append({"primitive": c.prim, "configuration": c.tag, "scalarisation": sname, "sequence": qn,
